@@ -197,6 +197,23 @@ def r3_digits(ctx, A):
                     r = e.get("result")
                     if o.cons.known.get(r) == 1 and seq_mentions(e["snap"][0] if e["args"][0][0] == "ref" else e["args"][0], seq):
                         guarded = True
+            # ... or the only deviation is excluded directly: the path has established that the substring does not start with '+'
+            # (`s.as_bytes().first() == Some(&b'+')` false, `s.starts_with('+')` false); FromStr then accepts exactly 1*DIGIT
+            if not guarded:
+                for t, v in o.cons.known.items():
+                    if v != 0 or not isinstance(t, tuple) or not t:
+                        continue
+                    if t[0] == "eq" and len(t) == 3:
+                        for x, y in ((t[1], t[2]), (t[2], t[1])):
+                            if isinstance(x, tuple) and x and x[0] == "first" and seq_mentions(x[1], seq) and is_agg(y) and y[3] == "Some" and \
+                                    agg_get(y, "0") == const(43):
+                                guarded = True
+                    elif t[0] == "call" and t[1].endswith("::starts_with") and len(t[2]) == 2 and seq_mentions(t[2][0], seq):
+                        lit = t[2][1]
+                        if isinstance(lit, tuple) and lit[0] in ("refconst", "&"):
+                            lit = lit[1]
+                        if lit == const(43) or (isinstance(lit, tuple) and lit[0] in ("str", "bytes") and lit[1] == "+"):
+                            guarded = True
             seen.setdefault(key, {"ev": ev, "guarded": True, "n": 0})
             seen[key]["n"] += 1
             if not guarded:
